@@ -63,7 +63,7 @@ take(4096), set operations against fixed issuer resources, asn_count, Display / 
 panic; when the counting allocator is installed: peak live bytes <= 64*len + 1 MiB and allocation calls <= 64*len + 4096 \
 per decode + walk. non-trivial = the decoder returned Ok (walk ran), or its first stage succeeded (outer SignedData / \
 SignedObject / SignedMessage / key-info text accepted, failure in the typed content), or the reported error position lies \
-behind the headers of the first three nested TLVs of the input.";
+behind the headers of the first three nested TLVs of the input. Entry points without a strict flag of their own (certificate, CRL, identity certificate, public key) are reached through X::decode (DER) and through the public X::take_from under a BER-mode decoder; the manifest content is also decoded on its own through ManifestContent::take_from in DER and BER mode (the ROA and ASPA content decoders are private); the walk drives the file-list, prefix and provider iterators through count / last / nth / size_hint as well.";
 
 //------------ seeds -------------------------------------------------------------
 
@@ -258,6 +258,7 @@ fn build_seeds() -> Seeds {
             .into_manifest(sob(100 + n as u64), &signer, &k0)
             .expect("sign mft");
         add(walk::MANIFEST, name, m.to_captured().into_bytes().to_vec(), true, true);
+        add(walk::MFT_CONTENT, &format!("content-of-{}", name), m.content().encode_ref().to_captured(Mode::Der).into_bytes().to_vec(), true, true);
     }
     add(walk::MANIFEST, "signature-alg-mismatch.mft", td!("repository/signature-alg-mismatch.mft").0.to_vec(), false, false);
     add(walk::MANIFEST, "ta.mft.bad-filename", td!("repository/ta.mft.bad-filename").0.to_vec(), false, false);
@@ -680,7 +681,7 @@ fn stable_sig(f: Fail) -> Fail {
 
 static ENTRY_LABELS: [&str; walk::N_ENTRIES as usize] = [
     "ep:cert", "ep:crl", "ep:manifest", "ep:roa", "ep:aspa", "ep:rta", "ep:sigobj", "ep:tal", "ep:pubkey", "ep:ca-csr",
-    "ep:bgpsec-csr", "ep:idcert", "ep:sigmsg", "ep:prov-cms", "ep:pub-cms",
+    "ep:bgpsec-csr", "ep:idcert", "ep:sigmsg", "ep:prov-cms", "ep:pub-cms", "ep:manifest-content",
 ];
 
 fn hex(b: &[u8]) -> String {
@@ -1088,4 +1089,5 @@ const MUTATE_FLOORS: &[(&str, f64)] = &[
     ("ep:sigmsg", 0.02),
     ("ep:prov-cms", 0.02),
     ("ep:pub-cms", 0.02),
+    ("ep:manifest-content", 0.02),
 ];
